@@ -59,4 +59,115 @@ theorem primes31_nttGood : primes31.NttGood := by
   intro k hk
   exact ⟨laneFwd_of _ k (a k hk) (b k hk) (c k hk), laneInv_of _ k (d k hk) (e k hk)⟩
 
+/-! ### every output of the executable networks is a `u64` -/
+
+theorem wu64_le (x : Nat) : wu64 x ≤ 2 ^ 64 - 1 := by
+  have := Nat.mod_lt x (by decide : 0 < 2 ^ 64); unfold wu64; omega
+theorem subU64_le (a b : Nat) : subU64 a b ≤ 2 ^ 64 - 1 := by
+  have := Nat.mod_lt (a + (2 ^ 64 - b % 2 ^ 64)) (by decide : 0 < 2 ^ 64); unfold subU64; omega
+theorem spm_le (x po hb mask : Nat) : splitPrecompmul x po hb mask ≤ 2 ^ 64 - 1 := by
+  unfold splitPrecompmul; exact wu64_le _
+
+theorem fwdTail_u64 (r : ReducK) (m : StepMeta) : ∀ (tw lo hi : List Nat),
+    AllLe (2 ^ 64 - 1) (fwdTail r m tw lo hi).1 ∧ AllLe (2 ^ 64 - 1) (fwdTail r m tw lo hi).2 := by
+  intro tw
+  induction tw with
+  | nil => intro lo hi; simp [fwdTail, AllLe]
+  | cons po tw ih =>
+    intro lo hi
+    match lo, hi with
+    | [], _ => simp [fwdTail, AllLe]
+    | _ :: _, [] => simp [fwdTail, AllLe]
+    | a :: lo', b :: hi' =>
+      obtain ⟨i1, i2⟩ := ih lo' hi'
+      simp only [fwdTail]
+      refine ⟨?_, ?_⟩
+      · intro x hx
+        rcases List.mem_cons.mp hx with rfl | hx
+        · exact wu64_le _
+        · exact i1 x hx
+      · intro x hx
+        rcases List.mem_cons.mp hx with rfl | hx
+        · exact spm_le _ _ _ _
+        · exact i2 x hx
+
+theorem fwdBfly_u64 (r : ReducK) (m : StepMeta) (tw lo hi : List Nat) :
+    AllLe (2 ^ 64 - 1) (fwdBfly r m tw lo hi).1 ∧ AllLe (2 ^ 64 - 1) (fwdBfly r m tw lo hi).2 := by
+  match lo, hi with
+  | [], _ => simp [fwdBfly, AllLe]
+  | _ :: _, [] => simp [fwdBfly, AllLe]
+  | a :: lo', b :: hi' =>
+    obtain ⟨i1, i2⟩ := fwdTail_u64 r m tw lo' hi'
+    simp only [fwdBfly]
+    refine ⟨?_, ?_⟩
+    · intro x hx
+      rcases List.mem_cons.mp hx with rfl | hx
+      · exact wu64_le _
+      · exact i1 x hx
+    · intro x hx
+      rcases List.mem_cons.mp hx with rfl | hx
+      · exact subU64_le _ _
+      · exact i2 x hx
+
+theorem nttLevels_u64 (r : ReducK) : ∀ (levels : List Level) (v : List Nat), AllLe (2 ^ 64 - 1) v →
+    AllLe (2 ^ 64 - 1) (nttLevels r levels v) := by
+  intro levels
+  induction levels with
+  | nil => intro v hv; simpa [nttLevels] using hv
+  | cons l rest ih =>
+    intro v _
+    obtain ⟨m, tw⟩ := l
+    obtain ⟨b1, b2⟩ := fwdBfly_u64 r m tw (v.take (v.length / 2)) (v.drop (v.length / 2))
+    simp only [nttLevels]
+    exact (ih _ b1).append (ih _ b2)
+
+theorem zipWith_spm_u64 (f : Nat → Nat) (hb mask : Nat) (v tw : List Nat) :
+    AllLe (2 ^ 64 - 1) (List.zipWith (fun x po => splitPrecompmul (f x) po hb mask) v tw) := by
+  intro x hx
+  rw [List.mem_iff_getElem] at hx
+  obtain ⟨i, hi, rfl⟩ := hx
+  rw [List.getElem_zipWith]
+  exact spm_le _ _ _ _
+
+theorem nttK_u64 (t : TableK) (v : List Nat) (hv : AllLe (2 ^ 64 - 1) v) : AllLe (2 ^ 64 - 1) (nttK t v) := by
+  unfold nttK
+  split
+  · exact hv
+  · exact nttLevels_u64 _ _ _ (zipWith_spm_u64 id _ _ _ _)
+
+/-! ### the real transforms, one lane -/
+
+/-- **forward transform, one lane**: for the table of size `2^j` of prime `k`, on any `u64` vector,
+`ntt_ref` is, modulo the prime, the evaluation transform `nttM` at `ω = OMEGA^(2^16/n)` -/
+theorem nttK_real (P : PrimeSet) (k j : Nat) (g : LaneFwd P k) (hj1 : 1 ≤ j) (hj : j ≤ 16) (t : TableK)
+    (ht : nttTableK P k (2 ^ j) = .ok t) (v : List Nat) (hv : v.length = 2 ^ j) (hu : AllLe (2 ^ 64 - 1) v) :
+    (nttK t v).map (cz (P.qs.getD k 1)) = nttM (omegaZ P k j) j (v.map (cz (P.qs.getD k 1))) ∧
+    (nttK t v).length = 2 ^ j ∧ AllLe (2 ^ 64 - 1) (nttK t v) := by
+  obtain ⟨ok, hl⟩ := nttTableK_spec P k j g hj1 hj t ht
+  have hk : t.levels.length - 1 = j := by omega
+  obtain ⟨e, n⟩ := nttK_spec t (omegaZ P k j) ok v (by rw [hk]; exact hv) hu
+  rw [hk] at e
+  exact ⟨e, by rw [n, hv], nttK_u64 t v hu⟩
+
+/-- **inverse transform, one lane** -/
+theorem inttK_real (P : PrimeSet) (k j : Nat) (g : LaneFwd P k) (gi : LaneInv P k) (hj1 : 1 ≤ j) (hj : j ≤ 16) (t : TableK)
+    (ht : inttTableK P k (2 ^ j) = .ok t) (v : List Nat) (hv : v.length = 2 ^ j) (hu : AllLe (2 ^ 64 - 1) v) :
+    (inttK t v).map (cz (P.qs.getD k 1)) = inttM (omegaInvZ P k j) (nInvZ P k j) j (v.map (cz (P.qs.getD k 1))) ∧
+    (inttK t v).length = 2 ^ j := by
+  obtain ⟨ok, hl⟩ := inttTableK_spec P k j g gi hj1 hj t ht
+  have hk : t.levels.length - 1 = j := by omega
+  obtain ⟨e, n⟩ := inttK_spec t (omegaInvZ P k j) (nInvZ P k j) ok v (by rw [hk]; exact hv) hu
+  rw [hk] at e
+  exact ⟨e, by rw [n, hv]⟩
+
+/-- **(b) `intt_ref ∘ ntt_ref ≡ id` modulo the prime**, for every `u64` vector of length `2^j` -/
+theorem intt_ntt_real (P : PrimeSet) (k j : Nat) (g : LaneFwd P k) (gi : LaneInv P k) (hj1 : 1 ≤ j) (hj : j ≤ 16) (t ti : TableK)
+    (ht : nttTableK P k (2 ^ j) = .ok t) (hti : inttTableK P k (2 ^ j) = .ok ti)
+    (v : List Nat) (hv : v.length = 2 ^ j) (hu : AllLe (2 ^ 64 - 1) v) :
+    (inttK ti (nttK t v)).map (cz (P.qs.getD k 1)) = v.map (cz (P.qs.getD k 1)) := by
+  obtain ⟨e1, n1, u1⟩ := nttK_real P k j g hj1 hj t ht v hv hu
+  obtain ⟨e2, _⟩ := inttK_real P k j g gi hj1 hj ti hti _ n1 u1
+  rw [e2, e1]
+  exact inttM_nttM _ _ _ j (omegaInv_spec P k j g gi hj).1 (nInv_spec P k j g gi hj).1 _ (by simpa using hv)
+
 end Ntt120
